@@ -53,7 +53,9 @@ def cases(tier, rng):
                         np += 1
                         sc.attach(1, np, PEER[t], b"p%d" % np)
                         sc.add(f"wire {np}")
-                    fr = [b"m%d" % i] + ([("gen", 70000, i)] if i == 1 else [])
+                    # (shapes: one frame; a 70 000-byte second frame; frames with EQUAL contents; empty frames)
+                    fr = ([b"m%d" % i] + ([("gen", 70000, i)] if i == 1 else [])) if i % 4 != 2 else \
+                        [[b"same%d" % i, b"same%d" % i], [b"", b""], [b"x%d" % i, b"y", b"x%d" % i]][(i // 4) % 3]
                     f = sc.fut()
                     sc.add(f"send {f} 1 {wg.mtok(fr)}", f"poll {f}")
                     for q in range(1, np + 1):
@@ -69,6 +71,35 @@ def cases(tier, rng):
                 c.expect = ("rotation", t, sends)
                 out.append(c)
                 n += 1
+        # a peer is LOST in the middle (its connection breaks: the send that picks it fails and the socket forgets it; its
+        # identity stays in the rotation queue as a stale entry): afterwards every send succeeds, writes one complete
+        # message to one survivor, and any n-1 consecutive sends reach n-1 different survivors
+        for np0 in (2, 3, 4):
+            for lost in range(1, np0 + 1):
+                for when in (0, 1, np0):
+                    sc = wg.Script()
+                    sc.sock(1, t)
+                    for p in range(1, np0 + 1):
+                        sc.attach(1, p, PEER[t], b"p%d" % p)
+                        sc.add(f"wire {p}")
+                    for i in range(3 * np0 + 2):
+                        if i == when:
+                            sc.add(f"wrerr {lost} BrokenPipe")
+                        fr = [b"m%d" % i, b"z"]
+                        f = sc.fut()
+                        sc.add(f"send {f} 1 {wg.mtok(fr)}", f"poll {f}", f"drop {f}")
+                        for q in range(1, np0 + 1):
+                            sc.add(f"wire {q}")
+                        if t == "REQ":
+                            for q in range(1, np0 + 1):
+                                if q != lost or i < when:      # (the peer answers for as long as it is healthy)
+                                    sc.reveal_msg(q, [b"", b"r"])
+                            g = sc.fut()
+                            sc.add(f"recv {g} 1", f"poll {g}", f"drop {g}")
+                    c = sc.case(f"rotation-loss-{t}#{n}", ["rotation-loss"])
+                    c.expect = ("loss", t, np0, lost)
+                    out.append(c)
+                    n += 1
         # credit scripts: partial writes, stall then resume
         if t != "REQ":
             for np0 in (1, 2, 3):
@@ -103,6 +134,41 @@ def oracle(case, lines):
         return None
     res = list(zip(case.ops, lines[1:]))
     kind, t = case.expect[0], case.expect[1]
+    if kind == "loss":
+        np0, lost = case.expect[2], case.expect[3]
+        idx = [i for i, (op, l) in enumerate(res) if op.startswith("send")]
+        hist, failed, after_loss = [], 0, False
+        for k, i in enumerate(idx):
+            pl = res[i + 1][1]
+            wires = {}
+            j = i + 3
+            while j < len(res) and res[j][0].startswith("wire"):
+                wires[int(res[j][0].split()[1])] = res[j][1]
+                j += 1
+            fr = [b"m%d" % k, b"z"]
+            if pl.startswith("ready err"):
+                failed += 1
+                after_loss = True
+                if failed > 1:
+                    return f"more than one send failed for ONE lost peer: send #{k}: {pl[:60]}"
+                continue
+            if pl != "ready ok":
+                return f"send #{k} did not complete in one poll: {pl[:60]}"
+            want = "wire " + wg.show_wire([([b""] if t == "REQ" else []) + fr])
+            hit = [q for q, v in wires.items() if v != "wire ."]
+            if len(hit) != 1 or wires[hit[0]] != want:
+                return f"send #{k}: not exactly one complete message on exactly one peer: {dict((q, v[:40]) for q, v in wires.items())} (want {want[:40]})"
+            if after_loss:
+                if hit[0] == lost:
+                    return f"send #{k} was written to the peer the socket had already seen fail"
+                hist.append(hit[0])
+        if failed != 1:
+            return f"the send that picked the broken peer should have failed exactly once (failed {failed} times)"
+        m = np0 - 1
+        for a in range(len(hist) - m + 1):
+            if len(set(hist[a:a + m])) != m:
+                return f"after the loss, {m} consecutive sends over {m} stable survivors reached {hist[a:a + m]} (not {m} different peers)"
+        return None
     if kind == "rotation":
         sends = case.expect[2]
         idx = [i for i, (op, l) in enumerate(res) if op.startswith("send")]
